@@ -840,10 +840,9 @@ func statusOK(cs *Case, status int) bool {
 	if unreadable(cs) && status >= 500 && status <= 599 {
 		return true
 	}
-	// COPY/MOVE are unimplemented by the CalDAV/CardDAV backends.
-	if status == 501 && (cs.Method == "COPY" || cs.Method == "MOVE") && (cs.Target == "caldav" || cs.Target == "carddav") {
-		return true
-	}
+	// (COPY/MOVE are unimplemented by the CalDAV/CardDAV backends and answer
+	// 501 when well-formed; a malformed one - invalid Destination, Depth or
+	// Overwrite - is still the client's fault and owed a 4xx.)
 	return false
 }
 
